@@ -108,6 +108,9 @@ def gen_program(tape, phase, special):
     same = [e['idx'] for e in POOL if e['dataset'] == POOL[first]['dataset'] and e['idx'] != first]
     other = [e['idx'] for e in POOL if e['idx'] != first]
     nmod = 1 + tape.draw(3, 'nmodels')
+    twins = [e['idx'] for e in POOL if e['key'] == POOL[first]['key'] and e['idx'] != first]
+    if twins and nmod > 1 and tape.draw(2, 'pool.twin'):
+        chosen.append(twins[0])
     while len(chosen) < nmod:
         src = same if (tape.draw(3, 'pool.share') != 0 and same) else other
         src = [x for x in src if x not in chosen]
@@ -379,13 +382,25 @@ def _check_history(hist, ref, failed_ops, V, stats, simos, k):
             me = r['out'][1]
             # "visible means complete": if every store of this key that had started before
             # this read returned carried results, a successful read must show them
-            stores = [x['op']['kind'] for x in recs if x['inv'] < r['ret'] and
-                      x['op'].get('model') is not None and POOL[x['op']['model']]['key'] == e['key'] and
-                      x['op']['kind'] in ('store', 'store_input', 'store_final', 'db_store_model')]
+            related = [x for x in recs if x['inv'] < r['ret'] and x['op'].get('model') is not None and
+                       POOL[x['op']['model']]['key'] == e['key'] and
+                       x['op']['kind'] in ('store', 'store_input', 'store_final', 'db_store_model')]
+            # acceptable results: those of any store of this key that had started before the
+            # read returned, or of the latest ones acknowledged in earlier phases; "no results"
+            # only if some store without results was among them / nothing carried results
+            acc = {POOL[x['op']['model']]['results_json'] for x in related
+                   if x['op']['kind'] != 'db_store_model' and POOL[x['op']['model']]['has_results']}
             earlier = e['key'] in ref.keys_acked
-            must = e['has_results'] and stores and 'db_store_model' not in stores and \
-                (not earlier or ref.keys_acked[e['key']]['results'])
-            prob = base.content_problem(me, e['key'], bool(must), True)
+            if earlier:
+                acc |= ref.results_candidates(e['key'])
+            if not acc or any(x['op']['kind'] == 'db_store_model' or
+                              not POOL[x['op']['model']]['has_results'] for x in related):
+                acc.add(None)
+            for f in failed_ops:
+                if f.get('model') is not None and POOL[f['model']]['key'] == e['key'] and \
+                        POOL[f['model']]['has_results']:
+                    acc.add(POOL[f['model']]['results_json'])
+            prob = base.content_problem(me, e['key'], acc)
             if prob is not None:
                 V.viol('partial-or-wrong-entry-visible',
                        f'concurrent retrieve of {e["name"]} by {r["vt"]} succeeded but {prob}')
